@@ -3,7 +3,7 @@
       rendezvous, a receive on a closed channel or a wg.Wait that is enabled in the skeleton semantics. *)
 From Coq Require Import ZArith List String Bool Lia Permutation.
 From Texel Require Import Pipe.Model Pipe.ProofsBase Pipe.ProofsInv Pipe.ProofsLive Pipe.Skeleton Pipe.SkeletonSem Pipe.SkeletonSim
-  Pipe.ProofsSkeleton Pipe.ConversePc Pipe.ConversePcSn Pipe.ProofsConversePc Pipe.ProofsConversePcSn Pipe.Converse
+  Pipe.ProofsSkeleton Pipe.ConversePc Pipe.ConversePcSn Pipe.ProofsConversePc Pipe.ProofsConversePcSn Pipe.Converse Pipe.ConverseRank
   Pipe.ProofsConverse1 Pipe.ProofsConverse2 Pipe.ProofsConverse4 Pipe.ProofsConverse5 Pipe.ProofsConverse8 Pipe.ProofsConverse9
   Pipe.ProofsConverse10.
 Import ListNotations.
